@@ -320,7 +320,7 @@ def refute(pc, neg, extra_str=3, extra_ref=6, timeout_ms=3000, str_consts=()):
         u = universe[Str] if t.sort() == Str else universe[Ref]
         s.add(z3.Or([t == c for c in u]))
     from .core import PathRunner
-    r = PathRunner.guarded_check(s, timeout_ms)
+    r = PathRunner.guarded_check(s, timeout_ms, wall=6)     # the model search is the refuting side: allowed to be slow
     info = f'finite universe: {len(universe[Str])} strings, {len(universe[Ref])} references'
     if r == z3.sat:
         return r, s.model(), info
